@@ -291,6 +291,11 @@ def run(tier, seed):
     plans.append((['?query', 'x1/y1', 'x1²', '!dupsym', '!otherdim2',
                    '!empty', '?query2'], 5 if tier == 'thorough' else 4,
                   [ROOTS[2]]))
+    # units with one definition in a type without reference unit, an ISO
+    # code declared directly and registered afterwards
+    plans.append((['n1/x0', 'n1/x0b', 'JPYhand', '!JPYreg', '!dupsym',
+                   'n1/x1', 'x1'], 5 if tier == 'thorough' else 4,
+                  [ROOTS[3]]))
     for names, depth, roots in plans:
         for root in roots:
             n, nfp, ng = explore(names, depth, total, root)
